@@ -3,7 +3,7 @@ import ast
 import z3
 
 from .values import *  # noqa
-from .repo import Unknown
+from .repo import Unknown, HostOpaque
 from .libops import (_zt, _hashkey, values_equal, to_str, to_repr, OpaqueVal, OpaqueFloat, StrOfInt, enum_value,
                      _belems)
 
@@ -59,10 +59,46 @@ class SymMapM(SymMap, Mutable):
 
 
 def new_symmap(name, vkind='int', origin=None):
-    return SymMapM(name, z3.Array(name + '.dom', I, B), z3.Array(name + '.val', I, I), 'int', vkind, origin)
+    m = SymMapM(name, z3.Array(name + '.dom', I, B), z3.Array(name + '.val', I, I), 'int', vkind, origin)
+    m.dom0, m.val0 = m.dom, m.val
+    return m
+
+
+class ObjKind:
+    """object-valued table: the stored value is an object id; fields are functions of the id."""
+
+    def __init__(self, cls, fields, tag):
+        self.cls = cls
+        self.fields = fields
+        self.fn = {f: z3.Function('%s.%s' % (tag, f), I, I) for f in fields}
+        self.counter = [0]
+        self.tag = tag
+
+    def load(self, t):
+        flds = {f: SInt(self.fn[f](t)) for f in self.fields}
+        if 'ktraces' in [n for n, _ in self.cls.fields]:
+            flds['ktraces'] = PList()
+        o = Obj(self.cls, flds)
+        o.oid = t
+        return o
+
+    def store(self, it, v):
+        if isinstance(v, SOpt) or v is None:
+            raise Unsupported('None stored into object table')
+        if not (isinstance(v, Obj) and v.cls is self.cls):
+            raise Unsupported('object of another class stored into table %s' % self.tag)
+        if getattr(v, 'oid', None) is not None:
+            return v.oid
+        t = z3.Int(it.ctx.fresh(self.tag + '.oid'))
+        for f in self.fields:
+            it.ctx.facts.append(self.fn[f](t) == zi(v.fields[f]))
+        v.oid = t
+        return t
 
 
 def _mapval(m, t):
+    if isinstance(m.vkind, ObjKind):
+        return m.vkind.load(t)
     if m.vkind == 'int':
         return mk_int(t)
     if m.vkind == 'atom':
@@ -72,7 +108,9 @@ def _mapval(m, t):
     raise Unsupported('symmap value kind')
 
 
-def _mapval_term(m, v):
+def _mapval_term(m, v, it=None):
+    if isinstance(m.vkind, ObjKind):
+        return m.vkind.store(it, v)
     if m.vkind == 'int':
         if isinstance(v, SOpt):
             raise Unsupported('optional stored into int table')
@@ -102,7 +140,7 @@ def symmap_nonempty(m):
 def symmap_get(it, m, k, default=None, node=None):
     if isinstance(k, SOpt):
         inner = symmap_get(it, m, k.val, default, node)
-        return merge(k.present, inner, default)
+        return merge_or_fork(it, k.present, inner, default)
     if not is_intlike(k):
         return default
     kt = zi(k)
@@ -113,7 +151,7 @@ def symmap_get(it, m, k, default=None, node=None):
         return val
     if z3.is_false(present):
         return default
-    return merge(present, val, default)
+    return merge_or_fork(it, present, val, default)
 
 
 def symmap_getitem(it, m, k, node=None):
@@ -133,7 +171,7 @@ def symmap_setitem(it, m, k, v, node=None):
     if isinstance(k, SOpt):
         raise Unsupported('optional key stored')
     kt = zi(k)
-    vt = _mapval_term(m, v)
+    vt = _mapval_term(m, v, it)
     m._write('dom', z3.Store(m.dom, kt, True))
     m._write('val', z3.Store(m.val, kt, vt))
     m._write('writes', m.writes + [(kt, vt)])
@@ -174,7 +212,14 @@ def symlist_contains(it, lst, x, node=None):
 
 
 def symlist_concat(it, a, b):
-    raise Unsupported('concat of symbolic lists')
+    if not (isinstance(a, SymList) and isinstance(b, SymList)):
+        raise Unsupported('concat of symbolic and concrete list')
+
+    def elem(j):
+        if it.ctx.branch(j < a.length):
+            return a.elem(j)
+        return b.elem(z3.simplify(j - a.length))
+    return SymList('(%s+%s)' % (a.name, b.name), z3.simplify(a.length + b.length), elem, origin=('concat', a, b))
 
 
 _filter_counter = [0]
@@ -222,7 +267,36 @@ def _method(name, fn):
     return Builtin(name, fn)
 
 
+def merge_or_fork(it, cond, a, b):
+    try:
+        return merge(cond, a, b)
+    except MergeFail:
+        return a if it.ctx.branch(cond) else b
+
+
+def _host_fn(name, rng):
+    return z3.Function('host.' + name, I, rng)
+
+
+def host_opaque_key(k):
+    if is_intlike(k):
+        return zi(k)
+    from .libops import _single_atom
+    t = _single_atom(k) if is_strlike(k) else None
+    if t is None:
+        raise Unsupported('key into host-derived value')
+    return t
+
+
 def getattr_(it, obj, name, node=None):
+    if isinstance(obj, HostOpaque):
+        if name == 'get':
+            def get(it_, a, k, n):
+                kt = host_opaque_key(a[0])
+                v = atom_str(_host_fn(obj.name + '.val', I)(kt))
+                return merge_or_fork(it, _host_fn(obj.name + '.dom', B)(kt), v, a[1] if len(a) > 1 else None)
+            return Builtin('host.get', get)
+        raise Unsupported('attribute %s of host-derived value' % name)
     if isinstance(obj, Unknown):
         raise Unsupported('use of dropped module-level value (%s)' % obj.why)
     if isinstance(obj, Obj):
@@ -292,6 +366,9 @@ def getattr_(it, obj, name, node=None):
     if is_intlike(obj):
         if name == 'to_bytes' or name == 'bit_length':
             raise Unsupported('int.' + name)
+    if type(obj).__name__ == 'ForeignObj':
+        it.raise_if(z3.Bool(obj.tag + '.lacks.' + name), 'AttributeError', 'foreign-attr', node)
+        return OpaqueVal('foreign', (z3.Int(obj.tag + '.' + name),))
     from . import libstubs
     r = libstubs.special_attr(it, obj, name, node)
     if r is not MISSING:
@@ -406,7 +483,7 @@ def dict_get(it, d, k, default=None, node=None):
                 continue
             g, v = d.d[kk]
             c = z3.And(_zt(g), _zt(e))
-            res = merge(z3.simplify(c), v, res)
+            res = merge_or_fork(it, z3.simplify(c), v, res)
         return res
     ent = d.get_entry(_hashkey(k))
     if ent is MISSING:
@@ -414,7 +491,7 @@ def dict_get(it, d, k, default=None, node=None):
     g, v = ent
     if g is True:
         return v
-    return merge(g, v, default)
+    return merge_or_fork(it, g, v, default)
 
 
 def dict_getitem(it, d, k, node=None):
@@ -559,6 +636,8 @@ def symmap_method(it, m, name, node):
 
 
 def symlist_method(it, lst, name, node):
+    if name == 'append':
+        return Builtin('list.append', lambda it_, a, k, n: lst.append(a[0]))
     raise Unsupported('method %s of symbolic list' % name)
 
 
@@ -586,6 +665,10 @@ def str_method(it, s, name, node):
         seq = args[0]
         if not isinstance(s, str):
             raise Unsupported('symbolic separator')
+        if isinstance(seq, LazyIterT) and isinstance(seq.src, OpaqueVal):
+            return SStr([('opaque', 'join-map', (s, seq.src))])
+        if isinstance(seq, OpaqueVal):
+            return SStr([('opaque', 'join', (s, seq))])
         if isinstance(seq, LazyIterT):
             seq = force_lazy(it, seq)
             seq = PList(seq) if isinstance(seq, list) else seq
@@ -742,6 +825,10 @@ def select_by_index(it, items, i, node, what='list-index'):
 
 
 def getitem(it, obj, key, node=None):
+    if isinstance(obj, HostOpaque):
+        kt = host_opaque_key(key)
+        it.raise_if(z3.Not(_host_fn(obj.name + '.dom', B)(kt)), 'KeyError', 'const-dict-key', node)
+        return atom_str(_host_fn(obj.name + '.val', I)(kt))
     if isinstance(obj, Unknown):
         raise Unsupported('use of dropped module-level value (%s)' % obj.why)
     if isinstance(obj, SOpt):
